@@ -7,6 +7,7 @@ evaluator, the expected decision is recomputed here and compared with the observ
 cidr_match is compared with Python's ipaddress on boundary-rich samples."""
 import ipaddress
 import json
+import re
 
 from common import *
 import c08
@@ -41,9 +42,12 @@ FILTERS = [
 BAD_FILTERS = ["1 +", "request.target.port", "\"str\"", "request.nope == 1", "1 == \"a\"", "to_string()", "[1, \"a\"][0] == 1"]
 
 
+OPAQUE_OBJ = re.compile(r"let\s+(\w+)\s*=\s*request\.(source|target)\s+in\s+to_string\(\1\)")
+
+
 def gen(r, tier, g):
     cases = []
-    n = 1500 if tier == "thorough" else 350
+    n = 12000 if tier == "thorough" else 350
     for _ in range(n):
         nconn = r.randrange(1, 4)
         conns = []
@@ -221,6 +225,10 @@ def run(tier, seed, replay=None):
     first_d = None
     for s, line, oi, om in zip(scen, lines, impl, mod):
         if "OPAQUE" in om:
+            continue
+        # the debug text of a let-bound request object is an opaque marker in the model and does not survive string
+        # operators applied to it (see checks/c08.py); such rule lists are judged by the oracle above only
+        if any(OPAQUE_OBJ.search(f or "") for _, f in s["rules"]):
             continue
         if canon(oi) != canon(om):
             n_diff += 1
